@@ -40,6 +40,9 @@ type BatchCheck struct {
 	Rule        string
 	Assumptions []string
 	Keep        func(p *prog.Program) bool // optional filter on programs
+
+	replayFamily string // when set, only the program with this family / vector is evaluated
+	replayVec    []int
 }
 
 type batchItem struct {
@@ -326,6 +329,18 @@ func runBatchCheck(bc *BatchCheck, tier string) *evid.Report {
 			seen[h] = len(items)
 			items = append(items, &batchItem{job: job{family: fc.Family, vec: run.Vec(), cost: cost, hash: h}})
 		}, func(*explore.Run) {}, &st)
+	}
+	if bc.replayFamily != "" {
+		var only []*batchItem
+		for _, it := range items {
+			if it.family == bc.replayFamily && explore.VecString(it.vec) == explore.VecString(bc.replayVec) {
+				only = append(only, it)
+			}
+		}
+		if len(only) == 0 { // the vector is not in this tier's enumeration: evaluate it anyway
+			only = []*batchItem{{job: job{family: bc.replayFamily, vec: bc.replayVec, cost: explore.Cost(bc.replayVec), hash: "replay"}}}
+		}
+		items = only
 	}
 	sort.SliceStable(items, func(i, j int) bool { return items[i].cost < items[j].cost })
 	r.Transitions = st.Transitions
@@ -763,4 +778,21 @@ func crudDriver(l *prog.Loaded, ev *Eval, caseID, crudSrc, ddl string, enums map
 	}
 	fmt.Fprintf(&b, "\tvlib.RegisterCrud(%q, cm)\n", caseID)
 	return b.String()
+}
+
+// replayBatch re-evaluates the program of a stored failure in a one-package batch.
+func replayBatch(bc *BatchCheck, f *evid.Failure) int {
+	for _, tier := range []string{"quick", "thorough"} {
+		cp := *bc
+		cp.replayFamily, cp.replayVec = f.Family, f.Vector
+		r := runBatchCheck(&cp, tier)
+		for _, g := range r.Failures() {
+			if g.Clause == f.Clause && g.Sig == f.Sig {
+				fmt.Printf("REPRODUCED %s (tier %s budget): %s\n", g.Clause, tier, g.Detail)
+				return 1
+			}
+		}
+	}
+	fmt.Println("not reproduced:", f.Clause, f.Sig)
+	return 0
 }
